@@ -388,6 +388,11 @@ class Interp:
 
     def ev_ref(self, e, env):
         x = e["e"]
+        if x.get("k") == "un" and x.get("o") == "*":
+            r = self.ev(x["e"], env)           # `&*p` / `&mut *p` of a modelled pointer is that pointer
+            if isinstance(r, ElemRef):
+                return r if e.get("m") else r.get()
+            return r
         if e.get("m") and x.get("k") == "index":
             c = self.ev(x["e"], env)
             if isinstance(c, list):
@@ -726,6 +731,12 @@ class Interp:
             if not 0 <= i < len(v):
                 raise Panic("index %r out of bounds" % (i,))
             return v[i]
+        if isinstance(v, (tuple, list)) and isinstance(i, StructVal) and str(i.path).rsplit("::", 1)[-1] in ("Range", "RangeTo", "RangeFrom", "RangeFull"):
+            lo = i.fields.get("start", 0)
+            hi = i.fields.get("end", len(v))
+            if not (isinstance(lo, int) and isinstance(hi, int) and 0 <= lo <= hi <= len(v)):
+                raise Panic("slice range %r..%r out of bounds (len %d)" % (lo, hi, len(v)))
+            return list(v[lo:hi])
         raise Unrecognised("index")
 
     # ---- helpers used by domains --------------------------------------------------
